@@ -22,6 +22,16 @@
 //! count (0) is compared (on the unchanged tree the later steps do run: `stack` underflows
 //! leave the stack alone, a legacy pop has already popped part of it; the documentation
 //! says nothing about either, so values are not asserted).
+//!
+//! The STRUCTURE of a `stack` step (sections step-structure-subsets and -variants): "ill-formed
+//! sub-commands are rejected at instantiation" is enumerated over which sub-command keys of the
+//! gamut a step names, not only over the arguments of one sub-command: all 2^7 subsets of
+//! push/pop/roll/unroll/flip/swap/drop with well-formed arguments for each member, in four textual
+//! orders, on its own and in three positions of a pipeline; well-formed members mixed with one
+//! ill-formed member; a key given twice; keys outside the gamut; legacy push/pop steps carrying
+//! new-style keys.  Oracle: accepted if and only if exactly one sub-command is named and its
+//! arguments are well-formed; an accepted step, run in both directions inside a program, is
+//! compared with the reference machine executing that one sub-command (`Ins::Spelled`).
 
 use geodesy::authoring::*;
 use proptest::prelude::*;
@@ -46,6 +56,9 @@ enum Ins {
     User { mode: u8, dim: u8, ret: i8, inv: bool },
     /// library operator LIB_STEPS[idx], opaque to the machine (evaluated standalone)
     Lib { idx: u8, inv: bool },
+    /// a step written as `text` (any spelling: key order, extra keys, repeated keys) that the
+    /// documentation says is the instruction `sem`
+    Spelled { text: String, sem: Box<Ins> },
 }
 
 /// (definition, invertible). Operand sets partly / wholly outside the domain make these report
@@ -151,11 +164,19 @@ impl Ins {
                 let (def, invertible) = LIB_STEPS[*idx as usize % LIB_STEPS.len()];
                 format!("{def}{}", if *inv && invertible { " inv" } else { "" })
             }
+            Ins::Spelled { text, .. } => text.clone(),
+        }
+    }
+    /// the instruction a spelled step stands for
+    fn core(&self) -> &Ins {
+        match self {
+            Ins::Spelled { sem, .. } => sem.core(),
+            other => other,
         }
     }
     /// a stack instruction that, executed in the given direction, writes stack columns into the operands
     fn writes_operands(&self, fwd: bool) -> bool {
-        match self {
+        match self.core() {
             Ins::Flip(_) => true,
             Ins::Pop(_) | Ins::LPop(_) => fwd,
             Ins::Push(_) | Ins::LPush(_) => !fwd,
@@ -180,13 +201,15 @@ impl Ins {
             // a one-way operator cannot be mirrored: the inverse direction then runs it in its
             // unsupported direction (0 successes, data left alone), which is part of the domain
             Ins::Lib { idx, inv } => Ins::Lib { idx: *idx, inv: !inv && LIB_STEPS[*idx as usize % LIB_STEPS.len()].1 },
+            // the text stays; executed in the inverse direction it acts as the mirrored instruction does forward
+            Ins::Spelled { text, sem } => Ins::Spelled { text: text.clone(), sem: Box::new(sem.mirrored()) },
             // axisswap inverse is the inverse permutation: keep the step, and let the
             // model apply the documented inverse mapping
             other => other.clone(),
         }
     }
     fn moves_data(&self) -> bool {
-        matches!(self, Ins::Pop(_) | Ins::Flip(_) | Ins::Roll(_, _) | Ins::Unroll(_, _) | Ins::LPop(_) | Ins::Swap)
+        matches!(self.core(), Ins::Pop(_) | Ins::Flip(_) | Ins::Roll(_, _) | Ins::Unroll(_, _) | Ins::LPop(_) | Ins::Swap)
     }
 }
 
@@ -279,6 +302,9 @@ fn model_exec(ins: &Ins, fwd: bool, stack: &mut Vec<Vec<f64>>, ops: &mut Vec<[f6
 }
 
 fn model_exec_inner(ins: &Ins, fwd: bool, stack: &mut Vec<Vec<f64>>, ops: &mut Vec<[f64; 4]>, out: &mut ModelOut, ext: Ext, reported: &mut usize) -> bool {
+    if let Ins::Spelled { sem, .. } = ins {
+        return model_exec_inner(sem, fwd, stack, ops, out, ext, reported);
+    }
     let len = ops.len();
     let push = |stack: &mut Vec<Vec<f64>>, ops: &Vec<[f64; 4]>, l: &[u8]| {
         for &i in l {
@@ -390,6 +416,7 @@ fn model_exec_inner(ins: &Ins, fwd: bool, stack: &mut Vec<Vec<f64>>, ops: &mut V
                 }
             }
         }
+        (Ins::Spelled { .. }, _) => unreachable!("handled above"),
     }
     true
 }
@@ -630,7 +657,7 @@ fn check(case: &Case, rec: &mut Rec) -> CaseResult {
                 // dimensions the container stores (the others read as constants, NaN for a missing epoch)
                 let stored: &[usize] = match case.kind as usize % KINDS { 0 => &[0, 1, 2, 3], 1 | 5 => &[0, 1, 2], _ => &[0, 1] };
                 let last = if case.fwd { case.prog.last() } else { case.prog.first() };
-                let legacy = matches!((last, case.fwd), (Some(Ins::LPop(_)), true) | (Some(Ins::LPush(_)), false));
+                let legacy = matches!((last.map(|i| i.core()), case.fwd), (Some(Ins::LPop(_)), true) | (Some(Ins::LPush(_)), false));
                 for (i, c) in data.iter().enumerate() {
                     if legacy {
                         // the legacy pop marks single elements (pinned by the repository's own test)
@@ -964,6 +991,345 @@ fn check_reject(c: &RejectCase, rec: &mut Rec) -> CaseResult {
     Ok(())
 }
 
+// ---- the structure of a `stack` step ------------------------------------------------
+//
+// "Ill-formed sub-commands are rejected at instantiation" over the STRUCTURE of a step: which
+// of the sub-command keys of the gamut a step names, in which textual order, with which other
+// keys.  The documentation (Rumination 002, operator `stack`) describes a step as ONE of
+// push/pop/roll/unroll/swap/flip; the constructor's own message says "must specify exactly one
+// of push/pop/roll/swap/unroll/drop".  Oracle: a step is accepted if and only if it names
+// exactly one sub-command and that one's arguments are well-formed; an accepted step behaves
+// as that one sub-command (reference machine).  Keys outside the gamut are ignored
+// (src/op/parameter.rs: "Any other parameters given should be ignored").
+
+/// The sub-command keys, in the order of STACK_GAMUT (src/inner_op/stack.rs).  `drop` is in the
+/// gamut and in the constructor's message but not in the documentation: a step naming `drop`
+/// together with another sub-command must be rejected, `stack drop` alone is not asserted.
+const SUBKEYS: [&str; 7] = ["push", "pop", "roll", "unroll", "flip", "swap", "drop"];
+const SERIES_KEYS: usize = 5;
+/// three well-formed spellings per sub-command, all executable on a stack of depth >= 4
+const MEMBERS: [[&str; 3]; 7] = [
+    ["push=3", "push=1,2", "push=2,2,1,1"],
+    ["pop=1", "pop=1,2", "pop=1,1,2"],
+    ["roll=3,1", "roll=2,-1", "roll=4,2"],
+    ["unroll=3,1", "unroll=3,-2", "unroll=4,3"],
+    ["flip=1", "flip=2,1", "flip=4,4"],
+    // a flag given bare and given as key=true is the same thing to the tokenizer
+    ["swap", "swap", "swap=true"],
+    ["drop", "drop", "drop=true"],
+];
+/// ill-formed arguments ("" = the key given bare, i.e. without any list)
+const BAD_LIST: [&str; 7] = ["0", "5", "1.5", "1,b", "-1", "2,9", ""];
+const BAD_ROLL: [&str; 7] = ["3", "3,3", "3,-3", "2.5,1", "a,b", "3,1,1", ""];
+/// keys outside the gamut of `stack` (among them the legacy flags and near misses of the sub-command names)
+const EXTRAS: [&str; 8] = ["foo", "foo=bar", "v_1", "v_2 v_4", "x=3", "pops=1", "swapped", "rolls=3,1 dropped"];
+
+fn bad_member(key: usize, j: usize) -> String {
+    let v = if key == 2 || key == 3 { BAD_ROLL[j % 7] } else { BAD_LIST[j % 7] };
+    if v.is_empty() {
+        SUBKEYS[key].to_string()
+    } else {
+        format!("{}={v}", SUBKEYS[key])
+    }
+}
+
+/// The instruction a well-formed member stands for (None: `drop`, undocumented)
+fn sem_of(member: &str) -> Option<Ins> {
+    let (key, val) = member.split_once('=').unwrap_or((member, ""));
+    let nums: Vec<i8> = val.split(',').filter_map(|x| x.parse().ok()).collect();
+    let list: Vec<u8> = nums.iter().map(|x| *x as u8).collect();
+    match key {
+        "push" => Some(Ins::Push(list)),
+        "pop" => Some(Ins::Pop(list)),
+        "flip" => Some(Ins::Flip(list)),
+        "roll" => Some(Ins::Roll(nums[0], nums[1])),
+        "unroll" => Some(Ins::Unroll(nums[0], nums[1])),
+        "swap" => Some(Ins::Swap),
+        _ => None,
+    }
+}
+
+/// four textual orders of the members of a step
+fn reorder(mut v: Vec<String>, o: usize) -> Vec<String> {
+    let n = v.len();
+    match o % 4 {
+        0 => v,
+        1 => {
+            v.reverse();
+            v
+        }
+        2 => {
+            if n > 1 {
+                v.rotate_left(n.div_ceil(2) % n);
+            }
+            v
+        }
+        _ => {
+            // even positions first, then the odd ones backwards
+            let mut out: Vec<String> = v.iter().step_by(2).cloned().collect();
+            out.extend(v.iter().skip(1).step_by(2).rev().cloned());
+            out
+        }
+    }
+}
+
+#[derive(Clone, Debug, Serialize, Deserialize)]
+enum Expect {
+    /// must give Err at instantiation
+    Reject,
+    /// must be accepted and behave as the instruction
+    Is(Ins),
+    /// acceptance not asserted (undocumented); if accepted it must behave as one of these
+    IfAcceptedOneOf(Vec<Ins>),
+    /// nothing asserted beyond "does not panic"
+    Unasserted,
+}
+
+#[derive(Clone, Debug, Serialize, Deserialize)]
+struct StepCase {
+    family: String,
+    /// the step under test, complete with operator name
+    step: String,
+    /// number of distinct sub-command keys the step names
+    named: u8,
+    expect: Expect,
+    /// 0: on its own (no pipeline), 1: "noop | X", 2: "X | noop", 3: in the middle of a stack program
+    position: u8,
+    kind: u8,
+    post: u8,
+}
+
+/// a step accepted as `sem`: executed after a depth-10 prelude, in direction `fwd`, followed by
+/// nothing (the operands show what it wrote) / by pops of the 4 / 5 topmost stack elements
+fn behaviour_case(step: &str, sem: &Ins, fwd: bool, post: u8, kind: u8) -> Case {
+    let exec_sem = if fwd { sem.clone() } else { sem.mirrored() };
+    let mut exec = prelude(3);
+    exec.push(Ins::Push(vec![3, 1]));
+    exec.push(Ins::AddOne(false));
+    exec.push(Ins::Spelled { text: step.to_string(), sem: Box::new(exec_sem) });
+    match post % 3 {
+        0 => {}
+        1 => exec.push(Ins::Pop(vec![1, 2, 3, 4])),
+        _ => {
+            exec.push(Ins::Pop(vec![2]));
+            exec.push(Ins::Pop(vec![1, 2, 3, 4]));
+        }
+    }
+    Case { prog: arrange(&exec, fwd), fwd, n_operands: 2, offset: 5, kind, opset: 0 }
+}
+
+fn check_step(c: &StepCase, rec: &mut Rec) -> CaseResult {
+    let text = match c.position % 4 {
+        0 => c.step.clone(),
+        1 => format!("noop | {}", c.step),
+        2 => format!("{} | noop", c.step),
+        _ => format!("stack push=1,2,3,4 | {} | stack pop=1", c.step),
+    };
+    let mut ctx = Minimal::new();
+    let verdict = match try_op(&mut ctx, &text) {
+        Err(p) => vfail!(format!("panic-instantiate@{}", p.sig()), "instantiating '{text}' panics: {} at {}:{}", p.msg, p.file, p.line),
+        Ok(Ok(_)) => Ok(()),
+        Ok(Err(e)) => Err(e),
+    };
+    let outcome = match (&c.expect, &verdict) {
+        (Expect::Reject, Ok(())) => {
+            let key = match c.named {
+                0 => "no-subcommand-accepted",
+                1 => "ill-formed-accepted",
+                _ => "several-subcommands-accepted",
+            };
+            vfail!(key, "'{text}': the step '{}' names {} sub-commands ({}) and is accepted at instantiation; a stack step must name exactly one sub-command, with well-formed arguments", c.step, c.named, c.family);
+        }
+        (Expect::Reject, Err(_)) => "rejected",
+        (Expect::Is(_), Err(e)) => {
+            vfail!("well-formed-rejected", "'{text}': the step '{}' names exactly one sub-command with well-formed arguments ({}; keys outside the gamut are ignored) but is rejected: {e:?}", c.step, c.family)
+        }
+        (Expect::Is(sem), Ok(())) => {
+            for fwd in [true, false] {
+                check(&behaviour_case(&c.step, sem, fwd, c.post, c.kind), rec)?;
+            }
+            rec.count("accepted_steps_compared_with_machine", 1);
+            "accepted-behaves-as-named"
+        }
+        (Expect::IfAcceptedOneOf(_), Err(_)) | (Expect::Unasserted, Err(_)) => "unasserted-rejected",
+        (Expect::Unasserted, Ok(())) => "unasserted-accepted",
+        (Expect::IfAcceptedOneOf(sems), Ok(())) => {
+            for fwd in [true, false] {
+                let mut last: Option<Failure> = None;
+                let mut hit = false;
+                for sem in sems {
+                    let mut scratch = Rec::default();
+                    match check(&behaviour_case(&c.step, sem, fwd, c.post, c.kind), &mut scratch) {
+                        Ok(()) => {
+                            hit = true;
+                            break;
+                        }
+                        Err(f) => last = Some(f),
+                    }
+                }
+                if !hit {
+                    let f = last.unwrap();
+                    vfail!(format!("behaves-as-none-of-the-named:{}", f.key), "'{}' is accepted but behaves as none of {:?} ({}): {}", c.step, sems.iter().map(|i| i.text()).collect::<Vec<_>>(), c.family, f.msg);
+                }
+            }
+            rec.count("accepted_steps_compared_with_machine", 1);
+            "unasserted-accepted-behaves-as-one-named"
+        }
+    };
+    rec.class(&format!("{}:{outcome}", c.family));
+    rec.class(&format!("subcommands-named:{}", c.named));
+    rec.class(["position:alone", "position:last-step", "position:first-step", "position:mid-program"][c.position as usize % 4]);
+    rec.nontrivial(&text);
+    Ok(())
+}
+
+struct Proto {
+    family: &'static str,
+    step: String,
+    named: u8,
+    expect: Expect,
+}
+
+fn members_of(mask: u8, variant: usize) -> Vec<String> {
+    (0..7).filter(|k| mask & (1 << k) != 0).map(|k| MEMBERS[k][(variant + k) % 3].to_string()).collect()
+}
+
+/// what the documentation says about a step naming exactly the (well-formed) members given
+fn expect_of(members: &[String]) -> Expect {
+    if members.len() != 1 {
+        return Expect::Reject;
+    }
+    match sem_of(&members[0]) {
+        Some(sem) => Expect::Is(sem),
+        None => Expect::Unasserted, // `stack drop`
+    }
+}
+
+/// every subset of the sub-command keys, well-formed arguments for each member
+fn subset_protos() -> Vec<Proto> {
+    let mut v = vec![];
+    for mask in 0..128u8 {
+        for variant in 0..3 {
+            for order in 0..4 {
+                let members = members_of(mask, variant);
+                let expect = expect_of(&members);
+                let named = members.len() as u8;
+                let step = std::iter::once("stack".to_string()).chain(reorder(members, order)).collect::<Vec<_>>().join(" ");
+                v.push(Proto { family: "subset", step, named, expect });
+            }
+        }
+    }
+    v
+}
+
+fn place(mut members: Vec<String>, extra: String, placement: usize) -> Vec<String> {
+    let at = match placement % 3 {
+        0 => 0,
+        1 => members.len(),
+        _ => members.len() / 2,
+    };
+    members.insert(at, extra);
+    members
+}
+
+fn variant_protos() -> Vec<Proto> {
+    let mut v = vec![];
+    let step_of = |members: Vec<String>| std::iter::once("stack".to_string()).chain(members).collect::<Vec<_>>().join(" ");
+    // one to three well-formed members and one ill-formed member of another key
+    for mask in 1..128u8 {
+        if mask.count_ones() > 3 {
+            continue;
+        }
+        for b in 0..SERIES_KEYS {
+            if mask & (1 << b) != 0 {
+                continue;
+            }
+            for j in 0..7 {
+                for placement in 0..3 {
+                    let members = place(members_of(mask, j), bad_member(b, j), placement);
+                    v.push(Proto { family: "well-formed+ill-formed", step: step_of(members), named: mask.count_ones() as u8 + 1, expect: Expect::Reject });
+                }
+            }
+        }
+    }
+    // a key given twice (what the tokenizer does with it is not documented: only "if accepted,
+    // it is one of the sub-commands named" is asserted) ...
+    for k in 0..7 {
+        for a in 0..3 {
+            for b in 0..3 {
+                for sep in 0..2 {
+                    let mut members = vec![MEMBERS[k][a].to_string(), MEMBERS[k][b].to_string()];
+                    if sep == 1 {
+                        members.insert(1, "foo".to_string());
+                    }
+                    let sems: Vec<Ins> = [a, b].iter().filter_map(|x| sem_of(MEMBERS[k][*x])).collect();
+                    let expect = if sems.is_empty() { Expect::Unasserted } else { Expect::IfAcceptedOneOf(sems) };
+                    v.push(Proto { family: "repeated-key", step: step_of(members), named: 1, expect });
+                }
+            }
+        }
+        // ... together with another sub-command: two sub-commands whatever the tokenizer keeps
+        for o in 0..7 {
+            if o == k {
+                continue;
+            }
+            for placement in 0..3 {
+                for a in 0..3 {
+                    let members = place(vec![MEMBERS[k][a].to_string(), MEMBERS[k][(a + 1) % 3].to_string()], MEMBERS[o][a].to_string(), placement);
+                    v.push(Proto { family: "repeated-key+other", step: step_of(members), named: 2, expect: Expect::Reject });
+                }
+            }
+        }
+    }
+    // ... once well-formed and once ill-formed
+    for k in 0..SERIES_KEYS {
+        for j in 0..7 {
+            for a in 0..3 {
+                for order in 0..2 {
+                    let members = reorder(vec![MEMBERS[k][a].to_string(), bad_member(k, j)], order);
+                    v.push(Proto { family: "repeated-key-one-ill-formed", step: step_of(members), named: 1, expect: Expect::IfAcceptedOneOf(vec![sem_of(MEMBERS[k][a]).unwrap()]) });
+                }
+            }
+        }
+    }
+    // keys outside the gamut are ignored: the verdict is that of the subset alone
+    for (e, extra) in EXTRAS.iter().enumerate() {
+        for mask in 0..128u8 {
+            for placement in 0..3 {
+                let members = members_of(mask, mask as usize + e);
+                let expect = expect_of(&members);
+                let named = members.len() as u8;
+                let members = reorder(place(members, extra.to_string(), placement), if placement == 2 { 1 } else { 0 });
+                v.push(Proto { family: "subset+unknown-keys", step: step_of(members), named, expect });
+            }
+        }
+    }
+    // legacy push/pop: the gamut is v_1..v_4, so the new-style keys are unknown keys there
+    for (name, push) in [("push", true), ("pop", false)] {
+        for lmask in 0..16u8 {
+            for mask in 0..128u8 {
+                for placement in 0..2 {
+                    let new_style = reorder(members_of(mask, (lmask + mask) as usize), lmask as usize);
+                    let legacy = flags(lmask, mask % 2 == 1);
+                    let legacy = legacy.trim();
+                    let mut parts = vec![name.to_string()];
+                    if placement == 0 {
+                        parts.push(legacy.to_string());
+                        parts.extend(new_style);
+                    } else {
+                        parts.extend(new_style);
+                        parts.push(legacy.to_string());
+                    }
+                    parts.retain(|p| !p.is_empty());
+                    let sem = if push { Ins::LPush(lmask) } else { Ins::LPop(lmask) };
+                    v.push(Proto { family: "legacy+new-style-keys", step: parts.join(" "), named: mask.count_ones() as u8, expect: Expect::Is(sem) });
+                }
+            }
+        }
+    }
+    v
+}
+
 fn main() {
     let mut run = Run::init("C12");
     selftest_model();
@@ -971,6 +1337,7 @@ fn main() {
     run.assume("after a stack underflow only the count (0) is compared unless the underflow is the last executed step, where every tuple must carry NaN");
     run.assume("swap on fewer than two stack elements is unspecified: generated, executed (must not panic), result not compared");
     run.assume("a step reporting fewer successes than operands (down to zero) does not change what the following instructions do; the pipeline reports the minimum count over the executed steps; library steps are opaque: the reference applies the same operator standalone to a container of the same kind holding its current operand state");
+    run.assume("a stack step is well-formed if and only if it names exactly one of the sub-command keys of the gamut (push, pop, roll, unroll, flip, swap, drop) with well-formed arguments; keys outside an operator's gamut are ignored (src/op/parameter.rs); `stack drop` alone (in the gamut, not in the documentation) and what the tokenizer does with a key given twice are not asserted");
     run.assume("operand sets in containers storing fewer than four dimensions: every step reads a tuple as the container reports it (height 0, epoch NaN, f32 values, adapter constants) and what it writes is kept in the stored dimensions only (documented container semantics)");
 
     let instrs = all_instructions();
@@ -1097,6 +1464,38 @@ fn main() {
         move |i| RejectCase { step: bad[i % nb].clone(), position: (i / nb) as u8 },
         check_reject,
     );
+
+    // 5. the structure of a stack step: all subsets of the sub-command keys
+    {
+        let protos = subset_protos();
+        let np = protos.len();
+        run.enumerate(
+            "step-structure-subsets",
+            "all 2^7 subsets of the sub-command keys of the gamut (push, pop, roll, unroll, flip, swap, drop), each member with well-formed arguments (3 spellings per key) x 4 textual orders x 4 positions (on its own, last / first step of a pipeline, inside a stack program): accepted at instantiation if and only if exactly one sub-command is named (0 and 2..7 must give Err; `stack drop` alone not asserted); an accepted step is run in both directions after a depth-10 prelude and compared with the reference machine executing that one sub-command",
+            np * 4,
+            move |i| {
+                let p = &protos[i % np];
+                StepCase { family: p.family.to_string(), step: p.step.clone(), named: p.named, expect: p.expect.clone(), position: (i / np) as u8, kind: (i % KINDS) as u8, post: (i % 3) as u8 }
+            },
+            check_step,
+        );
+    }
+
+    // 6. ... and mixtures, repeated keys, unknown keys, legacy steps with new-style keys
+    {
+        let protos = variant_protos();
+        let np = protos.len();
+        run.enumerate(
+            "step-structure-variants",
+            "1-3 well-formed members plus one ill-formed member of another key (7 kinds of ill-formed argument, 3 placements): Err; a key given twice (both well-formed / one ill-formed: acceptance not asserted, if accepted the step must behave as one of the well-formed sub-commands named) and twice plus another sub-command: Err; every subset of the sub-command keys plus keys outside the gamut (8 kinds incl. legacy flags and near misses of the key names, 3 placements): verdict and behaviour of the subset alone; legacy push/pop x 16 subsets of v_1..v_4 x every subset of the new-style keys (unknown to the legacy gamut, hence ignored): accepted, behaves as the legacy step; all x 4 positions",
+            np * 4,
+            move |i| {
+                let p = &protos[i % np];
+                StepCase { family: p.family.to_string(), step: p.step.clone(), named: p.named, expect: p.expect.clone(), position: (i / np) as u8, kind: ((i / 3) % KINDS) as u8, post: (i % 3) as u8 }
+            },
+            check_step,
+        );
+    }
 
     run.finish("generated stack programs checked against a reference interpreter transcribed from Rumination 002; see sections");
 }
